@@ -7,7 +7,7 @@
    definitions on the implementation, in all argument modes.
    permute is refuted on the unchanged tree (and pinned by test_permute_1): see C24_permute_refuted. *)
 From Coq Require Import List ZArith Bool Arith Permutation.
-From PV Require Import Model.Term Model.Subst Model.Unify Model.FD Model.State Model.Engine Proofs.EngineProofs Proofs.UnifyProofs Proofs.SemProofs Proofs.MonoProofs Proofs.RelSound Gen.RelDefs Proofs.DenProofs Proofs.RelSound2 Spec.StreamSem Proofs.StreamProofs Proofs.FDDen Proofs.FDComp Proofs.FDProg Proofs.FairProofs Proofs.ScopeElab Proofs.ScopeState Proofs.Complete0 Proofs.ForceC Proofs.RelComplete Proofs.LibComplete.
+From PV Require Import Model.Term Model.Subst Model.Unify Model.FD Model.State Model.Engine Proofs.EngineProofs Proofs.UnifyProofs Proofs.SemProofs Proofs.MonoProofs Proofs.RelSound Gen.RelDefs Proofs.DenProofs Proofs.RelSound2 Spec.StreamSem Proofs.StreamProofs Proofs.FDDen Proofs.FDComp Proofs.FDProg Proofs.FairProofs Proofs.ScopeElab Proofs.ScopeState Proofs.Complete0 Proofs.ForceC Proofs.RelComplete Proofs.LibComplete Proofs.LibCor.
 Import ListNotations.
 
 Definition q0 := TVar 100 false.
@@ -207,7 +207,8 @@ Theorem C24_permute_complete : forall x y, PermuteV x y ->
     emitsE (startq lib_defs) n (startq lib_defs (CCall BFS rel_permute [a; b]) st) ans.
 Proof. exact permute_complete. Qed.
 (* the general theorem they instantiate: any program built from ==, !=, domains, constraints, interleaving
-   conjunction / disjunction, fresh and CALLS of recursively defined relations, for any definitions and any
+   conjunction / disjunction, fresh, CALLS of recursively defined relations and closure { } blocks (elaborated when they are
+   reached, at the counter of the state they meet), for any definitions and any
    step-indexed value-level reading RelV of the relations that unfolds to the reading of the elaborated
    body (at every counter): no solution is lost *)
 Theorem C24_calls_complete : forall defs (RelV : nat -> nat -> list term -> Prop),
@@ -215,10 +216,23 @@ Theorem C24_calls_complete : forall defs (RelV : nat -> nat -> list term -> Prop
   (forall k r args th m, RelV (S k) r (map (app th) args) -> Forall (tb m) args ->
      exists d c nv th', find_def r defs = Some d /\
        elab defs efuel BFS (combine (d_params d) args) (GConj [d_body d]) m = (c, nv) /\
-       agree m th th' /\ DenV RelV k th' c /\ flatV c) ->
-  forall k g th st, DenV RelV k th g -> flatV g -> MstG th st -> GoodS st -> stb st -> gb (st_nextv st) g ->
+       agree m th th' /\ DenV defs RelV k th' c /\ flatV c) ->
+  forall k g th st, DenV defs RelV k th g -> flatV g -> MstG th st -> GoodS st -> stb st -> gb (st_nextv st) g ->
   exists a th' n, agree (st_nextv st) th th' /\ MstG th' a /\ emitsE (startq defs) n (startq defs g st) a.
 Proof. exact completeV_delivered. Qed.
+(* read on lists: EVERY split of a list (of terms without variables) is covered by an answer of append(q0, q1, l),
+   every element by an answer of member(q0, l) - for lists of any length *)
+Theorem C24_append_all_splits : forall xs ys, Forall (tb 0) (xs ++ ys) ->
+  exists ans th' n, MstG th' ans /\ th' 0%nat = list_term xs /\ th' 1%nat = list_term ys /\
+    emitsE (startq lib_defs) n (startq lib_defs (CCall BFS rel_append [TVar 0 false; TVar 1 false; list_term (xs ++ ys)]) (empty_state 2)) ans.
+Proof. exact append_all_splits. Qed.
+Theorem C24_member_all_elements : forall x xs, In x xs -> Forall (tb 0) xs ->
+  exists ans th' n, MstG th' ans /\ th' 0%nat = x /\
+    emitsE (startq lib_defs) n (startq lib_defs (CCall BFS rel_member [TVar 0 false; list_term xs]) (empty_state 1)) ans.
+Proof. exact member_all_elements. Qed.
+(* non-vacuity of the closure reading *)
+Example C24_closure_reading : DenV [] (fun _ _ _ => False) 1 (fun _ => tnum 1) (CClosure BFS [(0%nat, TVar 0 false)] [GEq (TVar 0 false) (tnum 1)]).
+Proof. exact closure_reading. Qed.
 (* non-vacuity: the initial state meets the hypotheses, with [1;2] ++ [3] = [1;2;3] *)
 Example C24_append_complete_example :
   exists ans th' n, MstG th' ans /\
@@ -299,3 +313,5 @@ Print Assumptions C24_member1_complete.
 Print Assumptions C24_rember_complete.
 Print Assumptions C24_distinct_complete.
 Print Assumptions C24_permute_complete.
+Print Assumptions C24_append_all_splits.
+Print Assumptions C24_member_all_elements.
